@@ -360,6 +360,66 @@ THREAD_LIST_MUTATORS = {
 }
 
 
+MAPPING_LIST_MUTATORS = {
+    (PD + "::enumerate_mappings", "store"): "the list IS the result of aggregate() over the whole memory map (C13/whole-map-read): assigned, never appended to",
+    (PD + "::enumerate_mappings", "swap"): "moves the mapping that holds the entry point to the front (C08/main-first)",
+}
+
+
+def rule_list_mutators(ctx, R, field, table, what, floor):
+    """who-may-write rule for a list field of PtraceDumper"""
+    def is_field(pl):
+        return any(x.get("k") == "field" and x.get("n") == field and (x.get("adt") or "").endswith("ptrace_dumper::PtraceDumper") for x in pl["proj"])
+    found = {}
+    for b in ctx.prog.bodies:
+        for bi, blk in enumerate(b.blocks):
+            if blk["cleanup"]:
+                continue
+            for si, st in enumerate(blk["stmts"]):
+                if st["k"] != "assign":
+                    continue
+                if is_field(st["p"]):
+                    found.setdefault((b.short, "store"), b.where(bi, si))
+                r = st["r"]
+                if r["k"] in ("ref", "addr", "rawptr") and r.get("bk", "mut") != "shared" and "p" in r and is_field(r["p"]):
+                    tmp = st["p"]["l"]
+                    how = "borrow"
+                    for ci, t in b.calls():
+                        if any(a.get("k") == "move" and a["p"]["l"] == tmp and not a["p"]["proj"] for a in t["args"]):
+                            how = (CalleeView(t["callee"]).short or "?").split("::")[-1]
+                    if how in ("deref_mut", "borrow"):
+                        # &mut *vec handed on as a slice: name the slice method it ends up in
+                        for ci, t in b.calls():
+                            d = t.get("dest")
+                            if (CalleeView(t["callee"]).short or "").split("::")[-1] == "deref_mut" and any(a.get("k") == "move" and a["p"]["l"] == tmp for a in t["args"]) and d:
+                                al = {d["l"]}
+                                for _ in range(3):
+                                    for blk2 in b.blocks:
+                                        for st2 in blk2["stmts"]:
+                                            if st2["k"] == "assign" and not st2["p"]["proj"]:
+                                                r2 = st2["r"]
+                                                if r2["k"] == "ref" and r2["p"]["l"] in al or (r2["k"] == "use" and r2["o"].get("p") and r2["o"]["p"]["l"] in al):
+                                                    al.add(st2["p"]["l"])
+                                for cj, t2 in b.calls():
+                                    if cj != ci and any(a.get("k") in ("move", "copy") and a["p"]["l"] in al for a in t2["args"]):
+                                        how = (CalleeView(t2["callee"]).short or "?").split("::")[-1]
+                    found.setdefault((b.short, how), b.where(bi, si))
+    for k, where in sorted(found.items()):
+        if k[0].endswith("PtraceDumper::new_report_soft_errors") or k[0].endswith("PtraceDumper::new"):
+            continue   # the constructor's empty list
+        why = table.get(k)
+        ctx.check(why is not None, R, ("mutator", k[0].split("::")[-1], k[1]), where,
+                  "%s changes %s through %s: %s" % (k[0].split("::")[-1], what, k[1], why),
+                  "%s changes PtraceDumper::%s through `%s`, which is not one of the reviewed writers (%s)" % (k[0], field, k[1], ", ".join("%s/%s" % (a.split("::")[-1], m) for a, m in table)))
+    ctx.floor(R, "reviewed writers of PtraceDumper::%s present" % field, len([k for k in found if k in table]), floor)
+
+
+def rule_mapping_list_mutators(ctx, R="C13/mapping-list-writers"):
+    """the mapping list a dump works with is the aggregate of ONE reading of the memory map: it is assigned by enumerate_mappings (not
+    appended to, extended, de-duplicated or filtered anywhere) and only the entry-point swap reorders it"""
+    rule_list_mutators(ctx, R, "mappings", MAPPING_LIST_MUTATORS, "the mapping list", 2)
+
+
 def _is_threads(pl):
     return any(x.get("k") == "field" and x.get("n") == "threads" and (x.get("adt") or "").endswith("ptrace_dumper::PtraceDumper") for x in pl["proj"])
 
